@@ -51,6 +51,8 @@ def _simpler_numbers(v):
                 out.append(c)
         return out
     if isinstance(v, float):
+        if v != v or v in (float("inf"), float("-inf")):
+            return []
         out = []
         for c in (0.0, 1.0, float(int(v)), round(v, 1), v / 2):
             if c != v and abs(c) <= abs(v) and c not in out:
